@@ -28,6 +28,12 @@ def showCols (n : Nat) (rows : List Row) : String :=
     let k := i + 1
     s!"{showRat (num k rows)} {showRat (den k rows)} {showEst (estimate k rows)}"))
 
+/-- `lenNum den meanLenEst` for every column k = 1 … n-1 (the reweighted mean path length) -/
+def showLenCols (n : Nat) (rows : List Row) : String :=
+  " ".intercalate ((List.range (n - 1)).map (fun i =>
+    let k := i + 1
+    s!"{showRat (lenNum k rows)} {showRat (den k rows)} {showEst (meanLenEst k rows)}"))
+
 def parseCoin? (s : String) : Option Bool := if s = "1" then some true else if s = "0" then some false else none
 
 def b01 (b : Bool) : String := if b then "1" else "0"
@@ -108,6 +114,24 @@ def handle (toks : List String) : String :=
       | some (rows, []) => showCols n rows
       | _ => "bad-op"
     | _, _ => "bad-op"
+  -- estlen n cnt row*              both estimators on the same rows: `<estimate answer> || <lenNum den meanLenEst per column>`
+  | "estlen" :: n :: cnt :: rest =>
+    match parseNat? n, parseNat? cnt with
+    | some n, some cnt =>
+      match takeRows n cnt rest with
+      | some (rows, []) => showCols n rows ++ " || " ++ showLenCols n rows
+      | _ => "bad-op"
+    | _, _ => "bad-op"
+  -- steps N t x                    the walk's finite-horizon law of the exit time E[min(τ,t)] (t ≤ 24: the definition branches twice per step)
+  | ["steps", n, t, x] =>
+    match parseNat? n, parseNat? t, parseNat? x with
+    | some n, some t, some x => if t ≤ 24 then showRat (LatticeMoves.stepsBy n t x) else "bad-op"
+    | _, _, _ => "bad-op"
+  -- hsteps N t x                   E[τ·1{N first, τ ≤ t}] under the walk's law (t ≤ 20)
+  | ["hsteps", n, t, x] =>
+    match parseNat? n, parseNat? t, parseNat? x with
+    | some n, some t, some x => if t ≤ 20 then showRat (LatticeMoves.hitStepsBy n t x) else "bad-op"
+    | _, _, _ => "bad-op"
   -- hit k                          the closed form (k+1)/(k+2)
   | ["hit", k] =>
     match parseNat? k with
